@@ -71,6 +71,46 @@ def translate():
     return rows, bool(ident)
 
 
+FITEMS = {"Has<Component>": "IHas", "&'aComponent": "IRef", "&'amutComponent": "IMut", "Option<&'aComponent>": "IOptRef",
+          "Option<&'amutComponent>": "IOptMut"}
+
+
+def translate_filter():
+    """src/query/view/contains/filter.rs: how an item of And<Filter, SubViews> is decided against the declared entry views:
+    (item, kind of the entry view of that component or None when the impl is for any Views) -> tests the identifier bit?"""
+    from translate import impl_blocks
+    src = read("src/query/view/contains/filter.rs")
+    cut = src.find("#[cfg(test)]")
+    if cut > 0:
+        src = src[:cut]
+    rows = {}
+    for h, b in impl_blocks(src):
+        hn = norm(h)
+        m = re.match(r"impl<'a,Component,Views>Sealed<'a,(.+?),index::Index>for(?:\((.+?),Views\)|Views)where", hn)
+        if not m:
+            continue
+        item, sup = m.group(1), m.group(2)
+        if item not in FITEMS or (sup is not None and sup not in KINDS):
+            raise ParseFailure("contains/filter.rs: unknown item/view %s / %s" % (item, sup))
+        bn = norm(b)
+        k = bn.find("whereRegistry:registry::Registry,")
+        body = bn[k + len("whereRegistry:registry::Registry,"):] if k >= 0 else bn
+        if body.startswith("{letindex=indices.0;unsafe{identifier.get_unchecked(index)}}"):
+            op = True
+        elif body.startswith("{true}"):
+            op = False
+        else:
+            raise ParseFailure("contains/filter.rs: %s over %s: unrecognised body %r" % (item, sup, body[:100]))
+        rows[(FITEMS[item], KINDS[sup] if sup else None)] = op
+    if not rows:
+        raise ParseFailure("contains/filter.rs: no impl found")
+    conn = norm(src)
+    connectives = ("<ViewsasSealed<'a,FilterA,IndexA>>::filter(indices,identifier)&&<ViewsasSealed<'a,FilterB,IndexB>>::filter(indices,identifier)" in conn
+                   and "<ViewsasSealed<'a,FilterA,IndexA>>::filter(indices,identifier)||<ViewsasSealed<'a,FilterB,IndexB>>::filter(indices,identifier)" in conn
+                   and "!unsafe{Views::filter(indices,identifier)}" in conn)
+    return rows, connectives
+
+
 def emit(rows, ident):
     o = ["(** @generated by tools/translate_subset.py from /repo/src/query/view/subset.rs — do not edit.",
          "    How a sub-view of kind [sub] is obtained from the slot a super-view of kind [sup] left behind;",
@@ -83,6 +123,20 @@ def emit(rows, ident):
     o.append("  | _, _ => None")
     o.append("  end.")
     o.append("Definition subset_identifier_passes : bool := %s." % ("true" if ident else "false"))
+    frows, conn = translate_filter()
+    o += ["", "(** query/view/contains/filter.rs: an item of [And<Filter, SubViews>] against the entry view of its component",
+          "    ([None]: the impl is for any views): [Some true] = the identifier bit is tested, [Some false] = constant true,",
+          "    [None] = no impl. *)",
+          "Inductive fitem := IHas | IRef | IMut | IOptRef | IOptMut.", "",
+          "Definition sub_filter_table (it : fitem) (sup : option vkind) : option bool :=", "  match it, sup with"]
+    for (it, sup), op in sorted(frows.items(), key=lambda kv: (kv[0][0], str(kv[0][1]))):
+        if sup is None:
+            o.append("  | %s, _ => Some %s" % (it, "true" if op else "false"))
+        else:
+            o.append("  | %s, Some %s => Some %s" % (it, sup, "true" if op else "false"))
+    o.append("  | _, _ => None")
+    o.append("  end.")
+    o.append("Definition sub_filter_connectives_boolean : bool := %s." % ("true" if conn else "false"))
     return "\n".join(o) + "\n"
 
 
